@@ -301,9 +301,10 @@ class Prober:
                     self.request('read', m, w, None)
 
 
-def _expect_of(shape, bases):
+def _expect_of(shape, bases, feats=None):
     return {m: {'wires': sorted({a['wire'] for a in accs.values() if a['wire']} | set(INHERITED[bases.get(m, 'Module')])),
-                'iface': [] if bases.get(m, 'Module') == 'Module' else [bases[m]], 'features': []}
+                'iface': [] if bases.get(m, 'Module') == 'Module' else [bases[m]],
+                'features': dc.features_of((feats or {}).get(m, ()))}
             for m, accs in shape.items()}
 
 
@@ -319,13 +320,20 @@ def _strict(shape, mod, name):
 def _run_node(node):
     dc.boot()
     shape = node['shape']
-    w = dc.World(shape)
+    bases = {m: node['base'] for m in shape}
+    feats = {m: node['feats'] for m in shape}
+    w = dc.World(shape, bases, feats)
     p = Prober(w.srv.dispatcher)
     p.first_reads()
     reqs = sorted(node['probes'], key=lambda r: json.dumps(r, sort_keys=True))
     for r in reqs:
         p.request(r['act'], r['mod'], r['name'], dc.conc(r['payload']), _strict(shape, r['mod'], r['name']))
-    return p.trace(_expect_of(shape, {}), expdesc=node['desc'])
+    expect = _expect_of(shape, bases)
+    for m in expect:        # what TLC printed for this class hierarchy
+        expect[m]['features'] = node['expfeatures']
+        expect[m]['iface'] = node['expiface']
+    # the SECoP base classes bring accessibles the shape does not list: the full comparison needs base Module
+    return p.trace(expect, expdesc=node['desc'] if node['base'] == 'Module' else None)
 
 
 # ---- code -> spec: random generated nodes
@@ -347,7 +355,12 @@ def _random_node(seed):
         b = rnd.choice(['Module', 'Module', 'Readable', 'Writable', 'Drivable'])
         if b != 'Module' and not set(accs) & {'value', 'target', 'status', 'pollinterval', 'stop'}:
             bases[m] = b
-    w = dc.World(shape, bases)
+    feats = {}
+    for m, accs in shape.items():          # 0-2 Feature mixins, directly or through one / two intermediate classes
+        names = rnd.sample(['VFeatA', 'VFeatB', 'HasOffset'], rnd.choice([0, 0, 1, 1, 2]))
+        feats[m] = [{'name': f, 'how': rnd.choice(['direct', 'mid', 'base'])} for f in names]
+        dc.with_features(accs, feats[m])
+    w = dc.World(shape, bases, feats)
     p = Prober(w.srv.dispatcher)
     p.first_reads()
     c = Ident()
@@ -379,7 +392,7 @@ def _random_node(seed):
                     and all(isinstance(x, (int, float)) for x in pay):
                 pay.sort()
         p.request(act, m, n, pay, _strict(shape, m, n))
-    expect = _expect_of(shape, bases)
+    expect = _expect_of(shape, bases, feats)
     for m, accs in shape.items():
         if bases.get(m, 'Module') != 'Module':
             continue                      # (inherited accessibles carry units of their own)
